@@ -12,6 +12,9 @@ package checks
 import (
 	"encoding/json"
 	"fmt"
+	"github.com/ovn-org/libovsdb/cache"
+	"github.com/ovn-org/libovsdb/client"
+	"github.com/ovn-org/libovsdb/model"
 	"sort"
 	"strings"
 
@@ -520,6 +523,56 @@ func c15Col(s *tspace.Schema, d string) string {
 	return "other"
 }
 
+// c15ClientCreate: the client API builds the insert operations of one transaction from
+// several models; a model's _uuid is a name, a real uuid or empty, and each operation
+// must carry exactly what its own model says (uuid-name, uuid, or neither).
+func c15ClientCreate(r *ev.Run, m *dyn.Model, p *prng.R) {
+	tc, err := cache.NewTableCache(m.DB, nil, nil)
+	if err != nil {
+		return
+	}
+	api := client.VerifNewAPI(tc)
+	for i := 0; i < 40; i++ {
+		n := 2 + p.Intn(4)
+		var mdls []model.Model
+		var ids, kinds []string
+		for k := 0; k < n; k++ {
+			t := m.S.Tables[p.Intn(len(m.S.Tables))]
+			id, kind := "", "none"
+			switch p.Intn(3) {
+			case 0:
+				id, kind = fmt.Sprintf("row%c", 'A'+k), "name"
+			case 1:
+				id, kind = p.UUID(), "uuid"
+			}
+			mdls = append(mdls, m.NewModel(t.Name, id, ref.Row{}))
+			ids = append(ids, id)
+			kinds = append(kinds, kind)
+		}
+		r.Eval(1)
+		r.Count("client_create_calls", 1)
+		r.Distinct("create|" + strings.Join(kinds, ","))
+		ops, err := api.Create(mdls...)
+		if err != nil || len(ops) != n {
+			r.Violation("C15/client-create/error", fmt.Sprintf("Create of %d models (%v) gives %d operations, error %v", n, kinds, len(ops), err), nil)
+			continue
+		}
+		for k, op := range ops {
+			wantName, wantUUID := "", ""
+			switch kinds[k] {
+			case "name":
+				wantName = ids[k]
+			case "uuid":
+				wantUUID = ids[k]
+			}
+			if op.UUIDName != wantName || op.UUID != wantUUID {
+				r.Violation("C15/client-create/operation-"+kinds[k]+"-after-"+strings.Join(kinds[:k], "+"), fmt.Sprintf("Create(%v): operation %d carries uuid-name %q and uuid %q, its model says %s %q", kinds, k, op.UUIDName, op.UUID, kinds[k], ids[k]), map[string]interface{}{"kinds": kinds, "ids": ids})
+				break
+			}
+		}
+	}
+}
+
 func c15Child(r *ev.Run, batch int) {
 	rounds := r.N(5, 40)
 	txns := r.N(130, 400)
@@ -531,6 +584,7 @@ func c15Child(r *ev.Run, batch int) {
 			r.Violation("C15/harness/model-build", err.Error(), nil)
 			return
 		}
+		c15ClientCreate(r, m, prng.Derive(r.Seed, "C15create", batch, si))
 		e, err := txn.New(m)
 		if err != nil {
 			return
